@@ -188,7 +188,12 @@ VSsetfields(int32 vkey, const char *fields)
                                     HGOTO_ERROR(DFE_BADFIELDS, FAIL);
                                 wlist->esize[wlist->n] = (uint16)value;
                                 wlist->isize[wlist->n] = (uint16)(order * rstab[j].isize);
-                                wlist->ivsize += (uint16)(wlist->isize[wlist->n]);
+
+                                /* the record size is checked like for the user's own fields */
+                                value = (int32)wlist->ivsize + (int32)(wlist->isize[wlist->n]);
+                                if (value > MAX_FIELD_SIZE)
+                                    HGOTO_ERROR(DFE_BADFIELDS, FAIL);
+                                wlist->ivsize = (uint16)value;
                                 wlist->n++;
                                 break;
                             }
